@@ -243,6 +243,31 @@ def strat_dag(tier):
 BIG = [2 ** 16 - 1, 2 ** 24 - 1, 2 ** 31, 2 ** 32 - 1, 2 ** 63, 2 ** 64 - 1, 255, 256, 65536, 2 ** 25, 2 ** 26, 2 ** 27 + 5, 2 ** 28]
 
 
+def check_tl_user_schema(case):
+    """schemas the USER registers (ordinary TL, not the bundled files): vectors whose elements can take no bytes at all (a bare
+    constructor without fields, one whose only field is an absent optional) - the count read from the input must not drive the work"""
+    from pytoniq_core.tl.generator import TlRegistrator, TlSchemas
+    reg = TlRegistrator()
+    schemas = TlSchemas([reg.register(t) for t in (
+        'c19t.tick = c19t.Tick;',
+        'c19t.maybe flags:# x:flags.0?int = c19t.Maybe;',
+        'c19t.ticks id:int ticks:(vector c19t.tick) = c19t.Ticks;',
+        'c19t.maybes id:int items:(vector c19t.maybe) = c19t.Maybes;',
+        'c19t.nested id:int rows:(vector c19t.ticks) = c19t.Nested;',
+        'c19t.ints id:int values:(vector int) = c19t.Ints;')])
+    host = schemas.get_by_name(case['host'])
+    data = host.little_id() + (7).to_bytes(4, 'little') + (case['count'] % 2 ** 32).to_bytes(4, 'little') + bytes.fromhex(case['tail'])
+    counted(lambda: schemas.deserialize(data), 150 * len(data) + 3000, 'tl-deserialize/user-schema')
+    return None          # raising or returning are both fine; only the bound matters
+
+
+def enum_tl_user_schema(tier):
+    for host in ('c19t.ticks', 'c19t.maybes', 'c19t.nested', 'c19t.ints'):
+        for tail in ('', '00000000', '0000000000000000', 'ffffffff' * 3):
+            for count in (0, 1, 3, 4, 5, 255, 2 ** 16, 2 ** 20, 2 ** 24 - 1, 2 ** 24, 2 ** 31 - 1, 2 ** 31, 2 ** 32 - 1):
+                yield {'host': host, 'tail': tail, 'count': count}
+
+
 def enum_count_fields(tier):
     specs = [[{'k': 'o', 'b': '1010', 'r': []}], [{'k': 'o', 'b': '11', 'r': []}, {'k': 'o', 'b': '0101', 'r': [0, 0]}]]
     for si, spec in enumerate(specs):
@@ -908,6 +933,10 @@ SUBCHECKS = [
              'logging configuration and again with everything logged and rendered'),
     Sub('random-dags', check_dag, strategy=strat_dag, classify=classify, nontrivial=nt, n=(600, 10000), shards=(8, 32), case_cpu_s=10,
         timeout_is_violation=True),
+    Sub('tl-parser-user-schemas', check_tl_user_schema, enum=enum_tl_user_schema, shards=(4, 8), case_cpu_s=10, timeout_is_violation=True,
+        classify=lambda c: [c['host'], 'count=2^%d' % c['count'].bit_length()], nontrivial=lambda c: c['count'] > 5,
+        note='user-registered TL schemas with vectors of zero-size elements (field-less bare constructor, absent optional field), nested '
+             'vectors and vectors of ints: 13 counts x 4 tails'),
     Sub('boc-parser-count-fields-grid', check_boc_bytes, enum=lambda tier: enum_count_fields(tier), classify=classify, nontrivial=nt, shards=(8, 16),
         case_cpu_s=10, timeout_is_violation=True,
         note='a small valid bag (with and without index, size 1..4) with ONE count field (cells / roots / absent / tot) rewritten to every power '
